@@ -623,14 +623,13 @@ fn find_tsig_algorithm_or_write_error(
         Some(algorithm)
     } else {
         response.set_rcode(Rcode::NOTAUTH);
-        response
-            .set_tsig(
-                writer::TsigMode::Unsigned {
-                    algorithm: tsig_rr.algorithm().to_owned(),
-                },
-                PreparedTsigRr::new_from_read(tsig_rr, now, TSIG_FUDGE, ExtendedRcode::BADKEY),
-            )
-            .unwrap();
+        set_tsig_or_truncate(
+            response,
+            writer::TsigMode::Unsigned {
+                algorithm: tsig_rr.algorithm().to_owned(),
+            },
+            PreparedTsigRr::new_from_read(tsig_rr, now, TSIG_FUDGE, ExtendedRcode::BADKEY),
+        );
         None
     }
 }
@@ -655,14 +654,13 @@ fn find_tsig_key_or_write_error<'k>(
         Some(key)
     } else {
         response.set_rcode(Rcode::NOTAUTH);
-        response
-            .set_tsig(
-                writer::TsigMode::Unsigned {
-                    algorithm: tsig_rr.algorithm().to_owned(),
-                },
-                PreparedTsigRr::new_from_read(tsig_rr, now, TSIG_FUDGE, ExtendedRcode::BADKEY),
-            )
-            .unwrap();
+        set_tsig_or_truncate(
+            response,
+            writer::TsigMode::Unsigned {
+                algorithm: tsig_rr.algorithm().to_owned(),
+            },
+            PreparedTsigRr::new_from_read(tsig_rr, now, TSIG_FUDGE, ExtendedRcode::BADKEY),
+        );
         None
     }
 }
@@ -724,13 +722,30 @@ fn verify_tsig_and_write_tsig_rr(
         };
 
     response.set_rcode(rcode);
-    response
-        .set_tsig(
-            mode,
-            PreparedTsigRr::new_from_read(tsig_rr, now, TSIG_FUDGE, tsig_err),
-        )
-        .unwrap();
-    rcode == Rcode::NOERROR
+    set_tsig_or_truncate(
+        response,
+        mode,
+        PreparedTsigRr::new_from_read(tsig_rr, now, TSIG_FUDGE, tsig_err),
+    ) && rcode == Rcode::NOERROR
+}
+
+/// Adds a TSIG RR to the response. If there is not enough room for it
+/// within the response's size limit (which can happen only over UDP,
+/// when the QNAME, key name, and algorithm name are long), then in the
+/// spirit of [RFC 8945 § 5.3] the response is left with only the
+/// question, the TC bit set, and RCODE NOERROR, so that the client
+/// retries over TCP. Returns whether the TSIG RR was added; if not,
+/// processing of the message must stop.
+///
+/// [RFC 8945 § 5.3]: https://datatracker.ietf.org/doc/html/rfc8945#section-5.3
+fn set_tsig_or_truncate(response: &mut Writer, mode: writer::TsigMode, rr: PreparedTsigRr) -> bool {
+    if response.set_tsig(mode, rr).is_ok() {
+        true
+    } else {
+        response.set_rcode(Rcode::NOERROR);
+        response.set_tc(true);
+        false
+    }
 }
 
 ////////////////////////////////////////////////////////////////////////
